@@ -10,7 +10,7 @@ use laythe_core::{
   hooks::GcHooks,
   object::{Fun, FunBuilder}, Chunk,
 };
-use std::{cell::RefCell, rc::Rc};
+use std::{cell::RefCell, collections::HashMap, rc::Rc};
 
 struct VecCursor<T> {
   vec: Vec<T>,
@@ -375,17 +375,49 @@ fn label_count(instructions: &[SymbolicByteCode]) -> usize {
 }
 
 fn apply_stack_effects(fun_builder: &mut FunBuilder, instructions: &mut [SymbolicByteCode]) {
+  // the frame's parameters sit between the callee slot and the first local
+  let parameters = fun_builder.parameter_count() as i32;
   let mut slots: i32 = 1;
 
+  // the stack depth on entry to each forward label as seen from the first
+  // instruction that transfers control to it
+  let mut label_slots: HashMap<u32, i32> = HashMap::new();
+
   for instruction in instructions {
-    if let SymbolicByteCode::PushHandler((_, label)) = instruction {
-      // TODO handle to many slots
-      *instruction = SymbolicByteCode::PushHandler((slots as u16, *label))
+    match instruction {
+      SymbolicByteCode::Label(label) => {
+        // code after an unconditional transfer is only reachable through its label
+        // so continue with the depth of the jump rather than the linear depth
+        if let Some(entry_slots) = label_slots.get(&label.val()) {
+          slots = *entry_slots;
+        }
+      },
+      SymbolicByteCode::PushHandler((_, label)) => {
+        // the catch block is entered with the stack cut back to this depth
+        label_slots.entry(label.val()).or_insert(slots);
+
+        // TODO handle to many slots
+        *instruction = SymbolicByteCode::PushHandler(((slots + parameters) as u16, *label))
+      },
+      _ => (),
     }
 
     slots += instruction.stack_effect();
     debug_assert!(slots >= 0);
     fun_builder.update_max_slots(slots);
+
+    match instruction {
+      SymbolicByteCode::Jump(label)
+      | SymbolicByteCode::JumpIfFalse(label)
+      | SymbolicByteCode::CheckHandler(label) => {
+        label_slots.entry(label.val()).or_insert(slots);
+      },
+      // the operand is left on the stack when short circuiting
+      SymbolicByteCode::And(label) | SymbolicByteCode::Or(label) => {
+        label_slots.entry(label.val()).or_insert(slots + 1);
+      },
+      _ => (),
+    }
   }
 }
 
